@@ -184,7 +184,12 @@ def check_scorer(rec, spec, X, label, t, pp, cuts=None, record=True):
     inp = {"level": "scorer", "scorer": spec["name"], "transform": t, "pp": pp, "X": X, "dtype": str(X.dtype)}
     try:
         base, e0 = safe_eval(spec["make"](ident).fit(X), cuts)
-        tran, e1 = safe_eval(spec["make"](perm).fit(TX), tcuts)
+        tr = spec["make"](perm)
+        try:                                    # the object scoring the transformed data has a past on the original data
+            safe_eval(tr.fit(X), cuts[:1])
+        except Exception:
+            tr = spec["make"](perm)
+        tran, e1 = safe_eval(tr.fit(TX), tcuts)
     except Exception as e:                      # construction / fit failure on one side
         base, tran, e0, e1 = None, None, f"{type(e).__name__}: {e}"[:160], None
     if e0 is not None or e1 is not None:
@@ -259,11 +264,17 @@ def make_detector(spec):
     return cls(**kw)
 
 
-def run_detector(spec, X):
+def run_detector(spec, X, prior=None):
     """-> ("ok", detections, final score or None) | ("raise", message, None).  detections: sorted list of ints /
-    [start, end] / [start, end, sorted columns]."""
+    [start, end] / [start, end, sorted columns].  prior: data the same detector object was fitted to and used on before."""
     try:
-        det = make_detector(spec).fit(X)
+        det = make_detector(spec)
+        if prior is not None:
+            try:
+                det.fit(prior).predict(prior)
+            except Exception:
+                det = make_detector(spec)
+        det = det.fit(X)
         y = det.predict(X)
         if spec["detector"] in ("PELT", "MovingWindow", "SeededBinarySegmentation"):
             out = [int(v) for v in y["ilocs"]]
@@ -447,7 +458,7 @@ def check_detector(rec, obs, spec, X, label, t, base, record=True):
         obs.add(f"{name}: run on the untransformed X raises (not comparable; see C03/C04/C14)", True,
                 {"kwargs": spec["kwargs"], "X": X, "error": out})
         return
-    s2, o2, f2 = run_detector(spec, apply_transform(X, t))
+    s2, o2, f2 = run_detector(spec, apply_transform(X, t), prior=X)
     if t["type"] == "reverse":
         # demanded: PELT's optimal penalised cost is unchanged (a float: no margin rule needed)
         if record:
@@ -488,7 +499,7 @@ def reversal_observation(obs, spec, X, base):
     if st != "ok" or not stable:
         return
     n = len(X)
-    s2, o2, _ = run_detector(spec, X[::-1].copy())
+    s2, o2, _ = run_detector(spec, X[::-1].copy(), prior=X)
     if s2 != "ok":
         return
     if spec["detector"] == "MovingWindow":
